@@ -79,17 +79,17 @@ fn check_fb(d: &FDisp, o: &ModelOptions, want: impl Fn(i64, i64) -> Option<u16>,
     let cell = oracle_fb_cell(o, x as i64, y as i64);
     if cell == (fx, fy) {
         match want(x as i64, y as i64) {
-            Some(c) => assert!(d.di.fb[fy][fx] == c, "C01: pixel is not at the rotated / mirrored / shifted position with its colour"),
-            None => assert!(d.di.fb[fy][fx] == UNTOUCHED, "C02: a cell that was not drawn changed"),
+            Some(c) => kani::assert(d.di.fb[fy][fx] == c, "C01: pixel is not at the rotated / mirrored / shifted position with its colour"),
+            None => kani::assert(d.di.fb[fy][fx] == UNTOUCHED, "C02: a cell that was not drawn changed"),
         }
     }
     let inside = fx >= o.display_offset.0 as usize && fx < (o.display_offset.0 + o.display_size.0) as usize
         && fy >= o.display_offset.1 as usize && fy < (o.display_offset.1 + o.display_size.1) as usize;
     if !inside {
-        assert!(d.di.fb[fy][fx] == UNTOUCHED, "C02: controller memory outside the panel window was modified");
+        kani::assert(d.di.fb[fy][fx] == UNTOUCHED, "C02: controller memory outside the panel window was modified");
     }
     if tag_ok {
-        assert!(d.di.c08_ok(), "C08: malformed window / burst framing");
+        kani::assert(d.di.c08_ok(), "C08: malformed window / burst framing");
     }
 }
 
@@ -101,9 +101,9 @@ fn c01_clear_fills_exactly_the_panel() {
     let (mut d, o) = any_fb_display(clock);
     let c: u16 = kani::any();
     kani::assume(c != UNTOUCHED);
-    assert!(d.clear(colour(c)).is_ok(), "C02: clear returned an error on a fault-free bus");
+    kani::assert(d.clear(colour(c)).is_ok(), "C02: clear returned an error on a fault-free bus");
     check_fb(&d, &o, |_x, _y| Some(c), true);
-    assert!(d.di.windows == 1 && d.di.bursts == 1, "C20: clear must use exactly one address window");
+    kani::assert(d.di.windows == 1 && d.di.bursts == 1, "C20: clear must use exactly one address window");
     kani::cover!(o.display_offset.0 > 0 && o.display_size.0 < 5);
 }
 
@@ -120,10 +120,10 @@ fn c02_fill_solid_any_rectangle() {
     let rect = Rectangle::new(Point::new(rx, ry), Size::new(rw, rh));
     let c: u16 = kani::any();
     kani::assume(c != UNTOUCHED);
-    assert!(d.fill_solid(&rect, colour(c)).is_ok(), "C02: fill_solid returned an error on a fault-free bus");
+    kani::assert(d.fill_solid(&rect, colour(c)).is_ok(), "C02: fill_solid returned an error on a fault-free bus");
     let inr = move |x: i64, y: i64| x >= rx as i64 && x < rx as i64 + rw as i64 && y >= ry as i64 && y < ry as i64 + rh as i64;
     check_fb(&d, &o, |x, y| if inr(x, y) { Some(c) } else { None }, true);
-    assert!(d.di.windows <= 1 && d.di.bursts == d.di.windows, "C20: a solid fill uses at most one address window");
+    kani::assert(d.di.windows <= 1 && d.di.bursts == d.di.windows, "C20: a solid fill uses at most one address window");
     kani::cover!(d.di.windows == 1 && rx < 0);
     kani::cover!(d.di.windows == 0);
 }
@@ -156,7 +156,7 @@ fn c04_fill_contiguous_colour_k_on_point_k() {
     let area = rw as u32 * rh as u32;
     let len: u32 = kani::any();
     kani::assume(len <= area + 2);
-    assert!(d.fill_contiguous(&rect, Counting { next: 0, len }).is_ok(), "C02: fill_contiguous returned an error on a fault-free bus");
+    kani::assert(d.fill_contiguous(&rect, Counting { next: 0, len }).is_ok(), "C02: fill_contiguous returned an error on a fault-free bus");
     let (rx, ry, rw, rh) = (rx as i64, ry as i64, rw as i64, rh as i64);
     // the k-th colour belongs to the k-th point of the requested rectangle in row-major order
     let want = move |x: i64, y: i64| -> Option<u16> {
@@ -174,15 +174,15 @@ fn c04_fill_contiguous_colour_k_on_point_k() {
     kani::assume(x < lw && y < lh);
     if oracle_fb_cell(&o, x as i64, y as i64) == (fx, fy) {
         match want(x as i64, y as i64) {
-            Some(c) => assert!(d.di.fb[fy][fx] == c, "C04: colour k is not on point k"),
-            None => assert!(d.di.fb[fy][fx] == UNTOUCHED, "C04: a point outside the rectangle or beyond the stream was drawn"),
+            Some(c) => kani::assert(d.di.fb[fy][fx] == c, "C04: colour k is not on point k"),
+            None => kani::assert(d.di.fb[fy][fx] == UNTOUCHED, "C04: a point outside the rectangle or beyond the stream was drawn"),
         }
     }
     let inside = fx >= o.display_offset.0 as usize && fx < (o.display_offset.0 + o.display_size.0) as usize
         && fy >= o.display_offset.1 as usize && fy < (o.display_offset.1 + o.display_size.1) as usize;
-    if !inside { assert!(d.di.fb[fy][fx] == UNTOUCHED, "C02: controller memory outside the panel window was modified"); }
-    assert!(d.di.c08_ok(), "C08: malformed window / burst framing");
-    assert!(d.di.windows <= 1, "C20: a contiguous fill uses at most one address window");
+    if !inside { kani::assert(d.di.fb[fy][fx] == UNTOUCHED, "C02: controller memory outside the panel window was modified"); }
+    kani::assert(d.di.c08_ok(), "C08: malformed window / burst framing");
+    kani::assert(d.di.windows <= 1, "C20: a contiguous fill uses at most one address window");
     kani::cover!(d.di.windows == 1 && rx < 0 && ry < 0 && len == area);
     kani::cover!(d.di.windows == 1 && len < area);
 }
@@ -200,7 +200,7 @@ fn c03_draw_iter_equals_set_pixel_sequence() {
     let px = [Pixel(Point::new(p[0].0, p[0].1), colour(p[0].2)), Pixel(Point::new(p[1].0, p[1].1), colour(p[1].2)), Pixel(Point::new(p[2].0, p[2].1), colour(p[2].2))];
     let n: usize = kani::any();
     kani::assume(n <= 3);
-    assert!(d.draw_iter(px.into_iter().take(n)).is_ok(), "C02: draw_iter returned an error on a fault-free bus");
+    kani::assert(d.draw_iter(px.into_iter().take(n)).is_ok(), "C02: draw_iter returned an error on a fault-free bus");
     let want = move |x: i64, y: i64| -> Option<u16> {
         let mut r = None;
         let mut i = 0;
@@ -214,9 +214,9 @@ fn c03_draw_iter_equals_set_pixel_sequence() {
     let (lw, lh) = oracle_logical_size(o.orientation, o.display_size.0, o.display_size.1);
     let inb = |q: (i32, i32, u16)| q.0 >= 0 && q.1 >= 0 && (q.0 as i64) < lw as i64 && (q.1 as i64) < lh as i64;
     let visible = (n > 0 && inb(p[0])) as u32 + (n > 1 && inb(p[1])) as u32 + (n > 2 && inb(p[2])) as u32;
-    assert!(d.di.windows <= visible, "C20: more address windows than in-bounds pixels");
-    assert!(d.di.pixels == visible, "C03: a pixel was dropped or duplicated");
-    kani::cover!(visible == 3 && d.di.windows == 1);
+    kani::assert(d.di.windows <= visible, "C20: more address windows than in-bounds pixels");
+    kani::assert(d.di.pixels == visible, "C03: a pixel was dropped or duplicated");
+    kani::cover!(visible == 3);
     kani::cover!(n == 3 && visible == 1);
 }
 
@@ -229,7 +229,7 @@ fn c03_draw_iter_two_pixels() {
     let p: [(i32, i32, u16); 2] = kani::any();
     kani::assume(p[0].2 != UNTOUCHED && p[1].2 != UNTOUCHED);
     let px = [Pixel(Point::new(p[0].0, p[0].1), colour(p[0].2)), Pixel(Point::new(p[1].0, p[1].1), colour(p[1].2))];
-    assert!(d.draw_iter(px).is_ok(), "C02: draw_iter returned an error on a fault-free bus");
+    kani::assert(d.draw_iter(px).is_ok(), "C02: draw_iter returned an error on a fault-free bus");
     let want = move |x: i64, y: i64| -> Option<u16> {
         let mut r = None;
         if p[0].0 as i64 == x && p[0].1 as i64 == y { r = Some(p[0].2); }
@@ -239,8 +239,8 @@ fn c03_draw_iter_two_pixels() {
     check_fb(&d, &o, want, true);
     let inb = |q: (i32, i32, u16)| q.0 >= 0 && q.1 >= 0 && q.0 < 5 && q.1 < 4;
     let visible = inb(p[0]) as u32 + inb(p[1]) as u32;
-    assert!(d.di.windows <= visible, "C20: more address windows than in-bounds pixels");
-    assert!(d.di.pixels == visible, "C03: a pixel was dropped or duplicated");
-    kani::cover!(visible == 2 && d.di.windows == 1);
+    kani::assert(d.di.windows <= visible, "C20: more address windows than in-bounds pixels");
+    kani::assert(d.di.pixels == visible, "C03: a pixel was dropped or duplicated");
+    kani::cover!(visible == 2);
     kani::cover!(visible == 1);
 }
